@@ -330,6 +330,9 @@ fn err_bucket(e: &RtcpParseError) -> &'static str {
         RtcpParseError::SdesPrivPrefixTooLarge { .. } => "err:SdesPrivPrefixTooLarge",
         RtcpParseError::WrongImplementation => "err:WrongImplementation",
         RtcpParseError::PacketTypeMismatch { .. } => "err:PacketTypeMismatch",
+        // a variant this harness does not know (the enum is the subject's to extend)
+        #[allow(unreachable_patterns)]
+        _ => "err:(a variant unknown to the harness)",
     }
 }
 
